@@ -1,1 +1,72 @@
-From HV Require Import Evm.ExecModel.
+(** Property C05 — a reverted EVM call frame leaves no trace, precompiles included.
+    Only statements; each is closed by a lemma of Evm/JournalProofs.v or Evm/SupplyProofs.v. *)
+From Coq Require Import ZArith List.
+From stdpp Require Import gmap.
+From HV Require Import Evm.ExecModel Evm.JournalProofs Evm.SupplyProofs Evm.Witnesses.
+Local Open Scope Z_scope.
+
+(** The journal is a correct undo log: for ANY sequence of cache mutations (balance
+    changes, storage writes, logs, account loads and creations) made after a snapshot,
+    RevertToSnapshot restores every observable of the cache: balances, storage reads,
+    the log count, the dirty counters and the journal itself. *)
+Theorem C05_revert_restores_every_cache_observable :
+  forall (W : world) (D : sdb) (ops : list cop), wf W D ->
+    obs_eq W (revert_to (fold_left (cop_apply W) ops D) (snapshot D)) D.
+Proof. exact revert_restores. Qed.
+Print Assumptions C05_revert_restores_every_cache_observable.
+
+Theorem C05_observational_equality_covers_all_reads :
+  forall W D1 D2, obs_eq W D1 D2 ->
+    (forall a, rbal D1 a = rbal D2 a) /\ (forall a k, rstate W D1 a k = rstate W D2 a k) /\
+    logs D1 = logs D2 /\ dirties D1 = dirties D2 /\ journal D1 = journal D2.
+Proof. exact obs_eq_reads. Qed.
+Print Assumptions C05_observational_equality_covers_all_reads.
+
+(** Every pure EVM program (any call tree of SSTORE / LOG / BALANCE / value calls /
+    REVERT, with catching and propagating callers, no precompile call) leaves the
+    Cosmos side untouched while it runs and only extends the journal in a way that
+    reverts cleanly to ANY earlier snapshot. *)
+Theorem C05_pure_code_is_a_clean_journal_extension :
+  forall i, pure i = true -> forall order o self W D, wf W D ->
+    pure_step W D (exec_instr order o self i (W, D)).
+Proof. exact pure_instr_ext. Qed.
+Print Assumptions C05_pure_code_is_a_clean_journal_extension.
+
+(** A call into pure code that fails (reverts, or propagates an inner failure) leaves
+    no trace at all: Cosmos state unchanged, cache observationally as before the call. *)
+Theorem C05_failed_pure_frame_leaves_no_trace :
+  forall order o W D caller t value body, wf W D -> forallb pure body = true ->
+    let r := do_call order (W, D) caller t value (exec_list order o t body) in
+    snd r = Fail -> fst (fst r) = W /\ obs_eq W (snd (fst r)) D.
+Proof. exact pure_failed_call_no_trace. Qed.
+Print Assumptions C05_failed_pure_frame_leaves_no_trace.
+
+(** A transaction that ultimately fails changes nothing (ApplyTransaction runs on a
+    cache context that is written back only on success; fee and nonce are handled by
+    the ante handler, outside this model). *)
+Theorem C05_failed_transaction_changes_nothing :
+  forall order W0 value t, snd (run_tx order W0 value t) = false -> fst (run_tx order W0 value t) = W0.
+Proof.
+  intros order W0 value t. unfold run_tx.
+  destruct (match t with TopCall c body => _ | TopPre p => _ end) as [[W D] oc].
+  destruct (commit order W D) as [[W1 D1] ok]. destruct ok, oc; cbn; congruence.
+Qed.
+Print Assumptions C05_failed_transaction_changes_nothing.
+
+(** The property is FALSE for frames that called a stateful precompile (known
+    finding K3): the model reproduces the implementation's observation on these
+    witnesses, the transaction succeeds, and the reverted frame's Cosmos effect /
+    flushed storage is still there. *)
+Theorem C05_reverted_frame_with_precompile_call_refuted :
+  model_obs w_k3_setwithdraw_reverted = impl_obs w_k3_setwithdraw_reverted /\
+  b_ok (model_obs w_k3_setwithdraw_reverted) = true /\
+  nth 3 (b_wd (model_obs w_k3_setwithdraw_reverted)) 0 = 1.
+Proof. exact k3_refuted. Qed.
+Print Assumptions C05_reverted_frame_with_precompile_call_refuted.
+
+Theorem C05_flushed_storage_and_delegation_survive_revert_refuted :
+  model_obs w_k3_storage_and_delegate_reverted = impl_obs w_k3_storage_and_delegate_reverted /\
+  b_ok (model_obs w_k3_storage_and_delegate_reverted) = true /\
+  nth 3 (b_deleg (model_obs w_k3_storage_and_delegate_reverted)) 0 = 100.
+Proof. exact k3_storage_refuted. Qed.
+Print Assumptions C05_flushed_storage_and_delegation_survive_revert_refuted.
